@@ -831,7 +831,7 @@ func runC05(env *Env) {
 	// short histories (these also feed the in-Coq sample)
 	nshort, nlong, nbreach, nill := 150, 60, 60, 60
 	if thorough {
-		nshort, nlong, nbreach, nill = 1500, 1500, 1500, 1500
+		nshort, nlong, nbreach, nill = 1500, 600, 600, 600
 	}
 	cfgs := []string{"std", "ant"}
 	for i := 0; i < nshort; i++ {
@@ -852,7 +852,7 @@ func runC05(env *Env) {
 	}
 	depth := 2
 	if thorough {
-		depth = 4
+		depth = 3
 	}
 	c05Enumerate(env, "std", depth, func(l string) { emit(l); env.Count("history:enumerated") })
 }
